@@ -412,6 +412,52 @@ func run(r *harness.Run) {
 			bases = append(bases, nb)
 		}
 	}
+	// large bodies and what an accepted request reports LATER: body sizes around the powers of two at which an implementation
+	// may switch to pooled or chunked reading; each accepted request is looked at again after every later delivery (accepted
+	// or refused, large or small) to the same process - what it reports must still be what was signed.
+	{
+		sizes := r.PickInts([]int{100, 4095, 4096, 4097, 8191, 8192, 8193, 16385, 65537}, []int{100, 1023, 1024, 1025, 4095, 4096, 4097, 8191, 8192, 8193, 16383, 16384, 16385, 32769, 65535, 65536, 65537, 262145, 1048577})
+		type kept struct {
+			fr   *fclient.FederationRequest
+			body []byte
+			n    int
+		}
+		var accepted []kept
+		recheck := func(after string) {
+			for _, k := range accepted {
+				if !bytes.Equal(k.fr.Content(), k.body) {
+					got := k.fr.Content()
+					if len(got) > 60 {
+						got = got[:60]
+					}
+					r.Violation(fmt.Sprintf("wire-later:size=%d:after=%s", k.n, after), fmt.Sprintf("request with a %d-byte body was accepted and reported its body as signed; after %s it reports a body starting %q", k.n, after, got), "none", nil)
+				}
+			}
+		}
+		for _, n := range sizes {
+			body := `{"pad":"` + strings.Repeat("a", n-10) + `"}`
+			b := base{Method: "PUT", URI: uris[0], Origin: names[0], Dest: names[1], KeyID: keyIDs[0], Body: body}
+			w, err := send(b)
+			if err != nil {
+				continue
+			}
+			for _, f := range []int{0, 1, 2} {
+				wf := clone(w)
+				wf.Framing = f
+				viol(fmt.Sprintf("wire-large:size=%d:framing=%d", n, f), wf, checkWire(r, wf, fmt.Sprintf("body of %d bytes, framing %d", n, f)))
+				if fr, code, derr := deliver(wf); derr == nil && fr != nil && code == 200 {
+					accepted = append(accepted, kept{fr, append([]byte(nil), wf.Body...), n})
+				}
+				recheck(fmt.Sprintf("an accepted request of %d bytes", n))
+				// a refused one of the same size: the body is read before anything is verified
+				forged := clone(wf)
+				forged.Body = []byte(`{"pad":"` + strings.Repeat("F", n-10) + `"}`)
+				_, _, _ = deliver(forged)
+				recheck(fmt.Sprintf("a refused request of %d bytes", n))
+			}
+		}
+		r.Count("large_body_sizes", int64(len(sizes)))
+	}
 	r.Count("base_requests", int64(len(bases)))
 	r.Parallel(len(bases), func(bi int) {
 		b := bases[bi]
